@@ -412,7 +412,19 @@ fn run_item(tier: Tier, it: &Items, i: usize, acc: &mut JsonAcc) {
     let (ui, qi) = it.items[i];
     let (p, u, qs) = &it.built[ui];
     let max_exec = 4096;
-    let stride = tier.pick(3usize, 1usize);
+    // thorough: every ordered pair up to depth 3, every 4th second question beyond
+    let stride = match tier {
+        Tier::Quick => 3usize,
+        Tier::Thorough => {
+            if p.depth >= 4 {
+                4
+            } else if p.depth == 3 && p.ns_count[0] >= 2 {
+                2
+            } else {
+                1
+            }
+        }
+    };
     check_history(acc, p, u, vec![Step::Ask(qs[qi].clone())], max_exec);
     // ordered pairs sharing one cache, clock advanced by 0 or past the short TTL
     let mut j = (qi * 7) % stride;
@@ -444,7 +456,7 @@ pub fn run(ctx: &Ctx) -> i32 {
         "universes": it.built.len(),
         "work_items(universe x first question)": it.items.len(),
         "max_depth": ctx.tier.pick(3, 5),
-        "second_question_stride": ctx.tier.pick(3, 1),
+        "second_question_stride": ctx.tier.pick("3", "1 up to depth 3 (2 for depth 3 with >= 2 nameservers), 4 beyond"),
         "deviation_bound": 0,
         "max_executions_per_history": 4096,
     });
